@@ -440,4 +440,38 @@ example : ((BNState.init.run [.addEdge 0 1,
     .addCpd { scope := [0], card := [2], vals := #[1, 0] },
     .removeNode 0]).cpds.map childOf) = [1] := by decide
 
+/-- `remove_node(v)`: the CPD of a child of `v`, marginalised over `v`, no longer mentions `v` -/
+theorem C15_remove_forgets (f : Factor) (v : Var) : v ∉ (CPD.marginalize f [v]).scope := by
+  have hs : (CPD.marginalize f [v]).scope = (f.outside [v]).map (·.1) := rfl
+  rw [hs]
+  intro hmem
+  obtain ⟨p, hp, hpv⟩ := List.mem_map.mp hmem
+  have := (List.mem_filter.mp hp).2
+  simp [hpv] at this
+
+/-- `do(X)`: the CPD of an intervened variable becomes a table over that variable alone -/
+theorem C15_do_parentless (f : Factor) (h : Shaped f) :
+    (CPD.marginalize f (f.scope.drop 1)).scope = [childOf f] := by
+  obtain ⟨hne, hlen, hnd⟩ := h
+  have hs : (CPD.marginalize f (f.scope.drop 1)).scope = (f.outside (f.scope.drop 1)).map (·.1) := rfl
+  rw [hs]
+  cases hsc : f.scope with
+  | nil => exact absurd hsc hne
+  | cons c rest =>
+    cases hcd : f.card with
+    | nil => rw [hsc, hcd] at hlen; simp at hlen
+    | cons k krest =>
+      rw [hsc] at hnd
+      have hc : c ∉ rest := (List.nodup_cons.mp hnd).1
+      have hrest : (rest.zip krest).filter (fun p => !rest.contains p.1) = [] := by
+        apply List.filter_eq_nil_iff.mpr
+        intro p hp
+        have : p.1 ∈ rest := (List.of_mem_zip hp).1
+        simp [this]
+      unfold Factor.outside
+      rw [hsc, hcd]
+      simp [hc, childOf, hsc]
+      intro a b hab
+      exact (List.of_mem_zip hab).1
+
 end PgmVerif
